@@ -28,13 +28,14 @@ static std::string gen(std::mt19937_64 &rng, int &nprocs) {
   std::ostringstream o;
   nprocs = 1 + rng() % 5;
   // names whose alphabetical order is unrelated to the layout order (a table keyed or sorted by name must not pass)
-  static const char *POOL[] = {"zeta", "alpha", "mid", "p10", "p2", "Beta9", "kilo", "a", "zz", "main_"};
+  static const char *POOL[] = {"zeta", "alpha", "mid", "p10", "accumulate_first_total", "Beta9", "kilo", "a", "a_rather_long_procedure_name", "main_"};
   std::vector<std::string> name; { std::vector<int> perm(10); for (int i = 0; i < 10; i++) perm[i] = i; for (int i = 9; i > 0; i--) std::swap(perm[i], perm[rng() % (i + 1)]); for (int p = 0; p < nprocs; p++) name.push_back(POOL[perm[p]]); }
   o << "BR start\nDATA 1000\n";
   for (int p = 0; p < nprocs; p++) {
     o << ((rng() & 1) ? "FUNC" : "PROC") << " " << name[p] << "\n";
     int body = rng() % 6; for (int i = 0; i < body; i++) o << "LDAC " << (rng() % 300) << "\n";
     if (rng() % 3 == 0) for (int i = 0; i < (int)(rng() % 20); i++) o << "LDAC 0\n";
+    if (rng() % 6 == 0) for (int i = 0; i < 1100; i++) o << "LDAC 0\n";   // offsets with three and four digits
     // return: pc = breg -- or fall through into the next procedure (its entry is then reached from the instruction
     // directly before it, the adjacent-procedure case)
     if (p == nprocs - 1 || rng() % 3 != 0) o << "OPR BRB\n";
